@@ -43,6 +43,7 @@ type Contract struct {
 	Pure      bool
 	MayPanic  bool
 	NoSafety  bool
+	AstValid  bool // verify under the theory ast-valid (what parser and type checker guarantee about the tree)
 	DynCallsFrame bool
 	Abstracts []*Clause
 	DynCallsPure bool
@@ -105,7 +106,7 @@ type Axiom struct {
 var clauseKeywords = map[string]bool{
 	"func": true, "ext": true, "spec": true, "abstract": true, "axiom": true, "prop": true,
 	"requires": true, "ensures": true, "assigns": true, "loop": true, "call": true, "pure": true,
-	"may_panic": true, "nosafety": true, "trusted": true, "bounded": true, "fresh": true, "emits": true, "note": true, "sets": true, "ghost": true, "readonly": true, "trusted_frame": true, "guarded": true, "dyncalls_pure": true, "abstracts": true, "dyncalls_frame": true,
+	"may_panic": true, "nosafety": true, "astvalid": true, "trusted": true, "bounded": true, "fresh": true, "emits": true, "note": true, "sets": true, "ghost": true, "readonly": true, "trusted_frame": true, "guarded": true, "dyncalls_pure": true, "abstracts": true, "dyncalls_frame": true,
 }
 
 var labelRe = regexp.MustCompile(`^@([A-Za-z0-9_\-./]+)\s+`)
@@ -390,6 +391,9 @@ func (e *Engine) readContractFile(path, pkgKey string) error {
 			case "trusted_frame":
 				cur.TrustedFrame = true
 				cur.Notes = append(cur.Notes, "frame assumed, not verified: "+rest)
+			case "astvalid":
+				cur.AstValid = true
+				cur.Notes = append(cur.Notes, "verified under the theory ast-valid (facts the parser and type checker guarantee about syntax trees): "+rest)
 			case "nosafety":
 				cur.NoSafety = true
 				cur.Notes = append(cur.Notes, "safety obligations not generated: "+rest)
